@@ -53,7 +53,13 @@ def step (st : St) (op res : String) : St × List String :=
                   "br:rsetup.ok" :: (if res == "ok" then [] else ["DIVERGE dom model=ok"]))
       | .error _ => ({}, "br:rsetup.err" :: (if res == "err" then [] else ["DIVERGE dom model=err"]))
     | _, _, _ => ({}, ["DIVERGE drift unparsed-op"])
-  | "rreq" :: _ :: mac :: _ =>       -- an optional fifth token is the request's option 50: no model input
+  | "rreq" :: _ :: mac :: _ =>       -- optional further tokens: the request's option 50, a lease time an earlier plugin put in the reply: no model input
+    if res == "SKIP after-hang" then (st, ["br:range.skip-after-hang"]) else
+    if (words res).getLast? == some "HANG" then
+      ({ st with cfg := none }, ["br:range.hang", "DIVERGE dom model does not block",
+        s!"FAIL C01 the range handler never returned (a lock left held): {op}",
+        s!"FAIL C16 the range handler never returned (no one-at-a-time order explains a call that does not return): {op}",
+        s!"FAIL C02 the range handler never returned: {op}"]) else
     match st.cfg, parseHex mac, words res with
     | some cfg, some mac, t0 :: t1 :: rest =>
       match t0.toInt?, t1.toInt?, parseReqRes rest with
@@ -84,8 +90,17 @@ def step (st : St) (op res : String) : St × List String :=
             (if mac.all (· < 256) && loadKeyConcrete mac != some mac then ["FAIL C03 the stored hardware address does not read back"] else []) ++
             (if want != macString mac then ["br:rreq.key-rewritten-by-affinity"] else [])
           | _ => []
+        -- C03's expiry clause with the promise read off the reply itself (the lease time it carries, whoever wrote it): the
+        -- stored expiry is not earlier, beyond the store's one-second resolution, than the end of that lease
+        let promised : List String := match obs, rows with
+          | .reply ip l, some _ =>
+            if stored.any (fun r => r.ip == ip && decide (r.expiry * nsPerSec ≥ t0 + (l : Int) * nsPerSec - nsPerSec)) then []
+            else
+              let short := (stored.filter (fun r => r.ip == ip)).map (fun r => (t0 + (l : Int) * nsPerSec - r.expiry * nsPerSec) / 1000000)
+              [s!"FAIL C03 the reply to {mac} promises a lease of {l} s, the stored expiry ends {short.foldl min (short.headD 0)} ms before it (stored {stored.map (·.expiry)}, request handled at {t0 / nsPerSec})"]
+          | _, _ => []
         let fails := keyMsgs ++ (if monv.c02 then [] else [s!"FAIL C02 request from {mac} -> {fmtReply obs}"]) ++
-                     (if monv.c03 then [] else [s!"FAIL C03 stored expiry of {mac} is earlier than the lease promised"])
+                     (if monv.c03 then [] else [s!"FAIL C03 stored expiry of {mac} is earlier than the lease promised"]) ++ promised
         let tryNow (now : Int) : Option (RState × Bool) :=
           match st.s.handle mac now choice with
           | none => none
